@@ -221,10 +221,14 @@ def _tm_tie_mu_allow(case, t, j):
         prior = [t_[1] for t_ in args[0][1]]
         ss = [sum(float(p[3]) ** 2 + tau * tau for p in tm) for tm in prior]
         cm = 4.0 if kind == "TMP" else 1.0
+        th = [math.fsum(float(p[2]) for p in tm) for tm in prior]
         tot = 0.0
         for q in range(len(vals)):
             if q != t and vals[q] == vals[t]:
-                tot += 2 * case["st"]["kappa"] / (cm * (ss[t] + ss[q] + 2 * case["st"]["beta"] ** 2))
+                # ambiguous only if the totals agree up to rounding and a total can depend on the summation order
+                # (a team of three or more players)
+                if max(len(prior[t]), len(prior[q])) >= 3 and abs(th[t] - th[q]) <= 1e-9 * max(abs(th[t]), abs(th[q]), case["st"]["beta"]):
+                    tot += 2 * case["st"]["kappa"] / (cm * (ss[t] + ss[q] + 2 * case["st"]["beta"] ** 2))
         return (float(prior[t][j][3]) ** 2 + tau * tau) * tot * (1 + 1e-9)
     except Exception:  # noqa: BLE001
         return 0.0
